@@ -35,5 +35,8 @@ EdgesInv == Done => EdgesBracketCentres(out, NCol) /\ WidthsPositive(out)
 BinnerInv == Done => \A p \in Perms : BinnerAligned(Load(Permute(rows, p), D, NCol, Variant))
 FitsInv == Done => /\ \A i \in 1..Len(out.wn) : Fits(out.wn[i]) /\ Fits(out.wnwA[i]) /\ Fits(out.wnwB[i])
                    /\ \A m \in 1..Len(out.edA) : Fits(out.edA[m]) /\ Fits(out.edB[m])
+\* every public route to the same source gives the same object (refuted for the one-route slips "edgesint", "hdf5wlgrid")
+RoutesAgree == Done => RoutesAgreeOn(rows, D, NCol, Variant)
+ASSUME PrintT(<<"ROUTES", ToJson([ncol |-> NCol, routes |-> RoutesOf(NCol)])>>)
 Emit == (Export /\ Done) => PrintT(<<"VEC", ToJson([rows |-> rows, ncol |-> NCol, exp |-> out])>>)
 =============================================================================
